@@ -288,13 +288,11 @@ class WebSocket:
         elif 1015 <= code <= 1999 or 1004 <= code <= 1006:
             raise ValueError('Invalid close code. Only unreserved codes may be used.')
 
-        # NOTE: Stop receiving only once the code is known to be valid; an
-        #   accepted connection is otherwise left without its receive pump.
-        await self._buffered_receiver.stop()
-
         # NOTE(kgriffs): Only do this after we validate the code, to avoid
         #   masking errors.
         if self.closed:
+            await self._buffered_receiver.stop()
+
             if self._state != _WebSocketState.CLOSED:
                 # NOTE: The client has gone; remember that, as the receive
                 #   pump has been stopped and can no longer tell.
@@ -312,16 +310,16 @@ class WebSocket:
             #   However, it is erroneously reported as missing on CPython 3.11.
             response['reason'] = reason
 
-        try:
-            await self._asgi_send(response)
-        except Exception:
-            # NOTE: The connection is still in the accepted state; keep
-            #   receiving so that it stays usable (and closable).
-            self._buffered_receiver.start()
-            raise
+        await self._asgi_send(response)
 
         self._state = _WebSocketState.CLOSED
         self._close_code = code
+
+        # NOTE: Stop receiving only once the close event has been handed to
+        #   the server. Should sending it fail, the connection is still in
+        #   the accepted state and keeps its receive pump (cancelling the
+        #   pump would drop a message it may be holding).
+        await self._buffered_receiver.stop()
 
     async def send_media(
         self,
